@@ -131,7 +131,12 @@ func composeBuilderForType(schemas ast.Schemas, builders ast.Builders, config Co
 		newBuilder.Name = config.ComposedBuilderName
 	}
 
-	typeField, ok := sourceBuilder.For.Type.AsStruct().FieldByName(config.PluginDiscriminatorField)
+	sourceType := schemas.ResolveToType(sourceBuilder.For.Type)
+	if !sourceType.IsStruct() {
+		return nil, fmt.Errorf("builder '%s' is not built for a struct", sourceBuilder.Name)
+	}
+
+	typeField, ok := sourceType.AsStruct().FieldByName(config.PluginDiscriminatorField)
 	if !ok {
 		return nil, fmt.Errorf("could not find plugin discriminator field '%s' in builder", config.PluginDiscriminatorField)
 	}
